@@ -359,7 +359,15 @@ void vfps::HDF5File::addParameterToGroup(std::string groupname,
 void vfps::HDF5File::append(const ElectricField* ef, const bool fullspectrum)
 {
     if (fullspectrum) {
-        _appendData(_csrSpectrum,ef->getCSRSpectrum());
+        /* In memory every bunch's spectrum has getNMax() entries,
+         * the file keeps the first _maxn of each (non-negative frequencies).
+         */
+        const csrpower_t* spectrum = ef->getCSRSpectrum();
+        std::vector<csrpower_t> rows(static_cast<size_t>(_nBunches)*_maxn);
+        for (uint32_t b=0; b<_nBunches; b++) {
+            std::copy_n(spectrum+b*ef->getNMax(),_maxn,rows.begin()+b*_maxn);
+        }
+        _appendData(_csrSpectrum,rows.data());
     }
     VERIF_IP("h5:csr:after_spectrum");
     _appendData(_csrIntensity,ef->getCSRPower());
